@@ -206,6 +206,10 @@ CORPUS = [
 ]
 
 
+CORPUS.append(Spec([gram.ClassSpec("A0", True, None), gram.ClassSpec("C1", False, 0, [("f0", "int")], weight=2),
+                    gram.ClassSpec("C2", False, 0, [("f0", ("cls", 0)), ("f1", ("list", ("cls", 0)))], weight=1)], 0, [1, 2], expansion=True))
+
+
 def run(h: Harness):
     rng = h.rng
     for spec in CORPUS:
@@ -213,6 +217,13 @@ def run(h: Harness):
     for i in range(h.n(300, 6000)):
         exp = rng.random() < 0.2
         spec = (gram.productive_spec if rng.random() < 0.75 else gram.random_spec)(rng, max_classes=rng.choice([3, 4, 6, 8]), expansion=exp)
+        if rng.random() < 0.3:
+            # production weights: extraction then re-registers the classes through update_weights,
+            # which must keep the depth-counting mode and everything else of the analysis
+            for c in spec.classes:
+                if not c.abstract and rng.random() < 0.5:
+                    c.weight = rng.choice([1, 2, 3, 0.5])
+            h.count("weighted-spec" + ("-expansion" if exp else ""))
         b = gram.build(spec)
         check_spec(h, "extract_grammar", spec, b)
     shipped(h)
